@@ -11,6 +11,7 @@
 package main
 
 import (
+	"sort"
 	"crypto"
 	"crypto/ecdsa"
 	"crypto/elliptic"
@@ -667,6 +668,53 @@ func genCommon(r *hx.Rand, g *hx.Gen) string {
 	return fmt.Sprintf("kid=%s nonce=%s url=%s pl=%s", hx.Hex([]byte(kid)), hx.Hex([]byte(nonce)), hx.Hex([]byte(genURL(r, g))), pl)
 }
 
+// jwsFeatures names the independent choices of one jws op (for the pair counters and table arms)
+func jwsFeatures(g *hx.Gen, key, common, sig string) {
+	f := strings.Split(key, ":")
+	kt := "rsa"
+	if f[0] == "ec" {
+		kt = f[1]
+	}
+	hit("jwsHasher", 5, kt)
+	form := "form-kid"
+	if strings.Contains(common, "kid=- ") {
+		form = "form-jwk"
+	}
+	nonce := "nonce-present"
+	if strings.Contains(common, "nonce=- ") {
+		nonce = "nonce-absent"
+	}
+	pl := "payload-json"
+	switch {
+	case strings.HasSuffix(common, "pl=s:-"):
+		pl = "payload-post-as-get"
+	case strings.Contains(common, "pl=s:"):
+		pl = "payload-string"
+	}
+	hit("payload-kind", 3, pl)
+	sk := strings.SplitN(sig, ":", 2)[0]
+	hit("signer-script", 4, sk)
+	feats := []string{"key-" + kt, form, nonce, pl, "sig-" + sk}
+	for _, ch := range []string{"22", "5c", "3c", "3e", "26"} { // characters encoding/json escapes: quote, backslash, less, greater, ampersand
+		for _, fld := range strings.Fields(common) {
+			if _, v, ok := strings.Cut(fld, "="); ok && !strings.HasPrefix(fld, "pl=") {
+				for i := 0; i+1 < len(v); i += 2 {
+					if v[i:i+2] == ch {
+						hit("json-escape", 5, ch)
+					}
+				}
+			}
+		}
+	}
+	if f[0] == "ec" && len(f) == 4 {
+		n := 2 * coordBytes(f[1])
+		if len(f[2]) < n || len(f[3]) < n {
+			feats = append(feats, "coord-leading-zero")
+		}
+	}
+	pairs(g, feats...)
+}
+
 func genScriptedJws(g *hx.Gen) {
 	r := g.R
 	key := scriptedPub(r, g)
@@ -697,7 +745,9 @@ func genScriptedJws(g *hx.Gen) {
 			sig = "raw:" + hx.Hex(r.Bytes(hx.Pick(r, []int{0, 1, 64, 128, 256, 257})))
 		}
 	}
-	g.Emit("jws key=%s %s sig=%s", key, genCommon(r, g), sig)
+	common := genCommon(r, g)
+	jwsFeatures(g, key, common, sig)
+	g.Emit("jws key=%s %s sig=%s", key, common, sig)
 	g.Stat("op.jws-scripted-signer")
 }
 
@@ -748,11 +798,20 @@ func genRealJws(g *hx.Gen) {
 	if err != nil {
 		panic(err)
 	}
-	g.Emit("jws key=%s priv=%s %s sig=real", pubSpec(k.Public()), hx.Hex(der), genCommon(r, g))
+	common := genCommon(r, g)
+	jwsFeatures(g, pubSpec(k.Public()), common, "real")
+	g.Emit("jws key=%s priv=%s %s sig=real", pubSpec(k.Public()), hx.Hex(der), common)
 	g.Stat("op.jws-real-key-verified-by-stdlib")
 }
 
+var scriptedSigLast string
+
 func scriptedSig(r *hx.Rand, g *hx.Gen, key string) string {
+	scriptedSigLast = scriptedSig0(r, g, key)
+	return scriptedSigLast
+}
+
+func scriptedSig0(r *hx.Rand, g *hx.Gen, key string) string {
 	f := strings.Split(key, ":")
 	if f[0] == "ec" {
 		size := coordBytes(f[1])
@@ -801,9 +860,23 @@ func genContacts(r *hx.Rand, g *hx.Gen) string {
 }
 
 // genApi: one public signing method of acme.Client with a scripted account key
-func genApi(g *hx.Gen, m string) {
+func keyKind(key string) string {
+	f := strings.Split(key, ":")
+	if f[0] == "ec" {
+		return f[1]
+	}
+	return "rsa"
+}
+
+var keyKinds = []string{"rsa", "P-256", "P-384", "P-521", "P-224"}
+
+func genApi(g *hx.Gen, m string, n int) {
 	r := g.R
+	// every (method, key kind) and (method, signer outcome) pair comes round: the key kind cycles with n
 	key := scriptedPub(r, g)
+	for keyKind(key) != keyKinds[(n/len(apiMethods))%len(keyKinds)] {
+		key = scriptedPub(r, g)
+	}
 	kid := "https://ca.invalid/acct/1"
 	nonce := "n" + genStr(r, g, 16, "nonce")
 	extra := ""
@@ -849,13 +922,24 @@ func genApi(g *hx.Gen, m string) {
 	sigKey := key
 	if strings.Contains(extra, "ckey=") {
 		ck := extra[strings.Index(extra, "ckey=")+5:]
-		if strings.HasPrefix(ck, "rsa") != strings.HasPrefix(key, "rsa") {
-			key = ck // use one kind of key for both roles
+		for strings.HasPrefix(ck, "rsa") != strings.HasPrefix(key, "rsa") { // one kind of key for both roles
+			ck = scriptedPub(r, g)
 		}
+		extra = extra[:strings.Index(extra, "ckey=")+5] + ck
 		sigKey = ck
 	}
+	sg := scriptedSig(r, g, sigKey)
+	if (n/(len(apiMethods)*len(keyKinds)))%4 == 3 {
+		sg = "fail"
+	}
 	g.Stat("api." + m)
-	g.Emit("api m=%s key=%s kid=%s nonce=%s sig=%s%s", m, key, hx.Hex([]byte(kid)), hx.Hex([]byte(nonce)), scriptedSig(r, g, sigKey), extra)
+	hit("api-method", len(apiMethods), m)
+	kt := strings.Split(key, ":")[0]
+	if kt == "ec" {
+		kt = strings.Split(key, ":")[1]
+	}
+	pairs(g, "api-"+m, "key-"+kt, "sig-"+strings.SplitN(sg, ":", 2)[0])
+	g.Emit("api m=%s key=%s kid=%s nonce=%s sig=%s%s", m, key, hx.Hex([]byte(kid)), hx.Hex([]byte(nonce)), sg, extra)
 }
 
 func gen(g *hx.Gen) {
@@ -883,12 +967,48 @@ func gen(g *hx.Gen) {
 			genRoll(g)
 		case c < 36:
 			apiN++
-			genApi(g, apiMethods[apiN%len(apiMethods)])
+			genApi(g, apiMethods[apiN%len(apiMethods)], apiN)
 		case c < 38:
 			g.Emit("chal key=%s token=%s", scriptedPub(r, g), hx.Hex([]byte(genStr(r, g, 20, "token"))))
 			g.Stat("op.chal-key-authorization")
 		default:
-			g.Emit("b64 data=%s", hx.Hex(r.Bytes(r.Intn(40))))
+			d := r.Bytes(r.Intn(40))
+			hit("b64-tail", 3, fmt.Sprint(len(d)%3))
+			g.Emit("b64 data=%s", hx.Hex(d))
+		}
+	}
+	flushTables(g)
+}
+
+
+// ------------------------------------------------------------------ coverage bookkeeping (pairs of features, table arms)
+
+var tableHits = map[string]map[string]bool{}
+var tableSize = map[string]int{}
+
+// hit records that arm `arm` of the table / switch `name` (which has `total` arms) was produced.
+func hit(name string, total int, arm string) {
+	if tableHits[name] == nil {
+		tableHits[name] = map[string]bool{}
+	}
+	tableHits[name][arm] = true
+	tableSize[name] = total
+}
+
+func flushTables(g *hx.Gen) {
+	for name, arms := range tableHits {
+		g.Stat(fmt.Sprintf("table.%s=%d/%d", name, len(arms), tableSize[name]))
+	}
+}
+
+// pairs counts every unordered pair of the features of one generated case.
+func pairs(g *hx.Gen, feats ...string) {
+	sort.Strings(feats)
+	for i := range feats {
+		for j := i + 1; j < len(feats); j++ {
+			if feats[i] != feats[j] {
+				g.Stat("pair." + feats[i] + "+" + feats[j])
+			}
 		}
 	}
 }
